@@ -8,7 +8,7 @@ for d in sorted(os.listdir("/verif/seeded")):
         continue
     m = json.load(open(mp))
     origin = m.get("origin", "")
-    o = "reverse of a fix" if d.startswith("revert-") else ("hand-written" if d.startswith("hand-") else ("sub-agent, wave 4" if "fourth wave" in origin else ("sub-agent, wave 5" if "fifth wave" in origin else ("sub-agent, wave 6" if "sixth wave" in origin else ("sub-agent, wave 7" if "seventh wave" in origin else ("sub-agent, wave 8" if "eighth wave" in origin else "sub-agent, wave 3")))) if ("third wave" in origin or "fifth wave" in origin or "sixth wave" in origin or "seventh wave" in origin or "eighth wave" in origin) else ("sub-agent, wave 2" if "second wave" in origin else "sub-agent, wave 1")))
+    o = "reverse of a fix" if d.startswith("revert-") else ("hand-written" if d.startswith("hand-") else ("sub-agent, wave 4" if "fourth wave" in origin else ("sub-agent, wave 5" if "fifth wave" in origin else ("sub-agent, wave 6" if "sixth wave" in origin else ("sub-agent, wave 7" if "seventh wave" in origin else ("sub-agent, wave 8" if "eighth wave" in origin else ("sub-agent, wave 9" if "ninth wave" in origin else "sub-agent, wave 3"))))) if ("third wave" in origin or "fifth wave" in origin or "sixth wave" in origin or "seventh wave" in origin or "eighth wave" in origin or "ninth wave" in origin) else ("sub-agent, wave 2" if "second wave" in origin else "sub-agent, wave 1")))
     needs = (m.get("needs_to_manifest") or m.get("needs") or "").replace("|", "/").replace("\n", " ")
     if d.startswith("revert-") and not needs:
         needs = "see known_findings.json"
